@@ -1,0 +1,51 @@
+#pragma once
+
+/**
+ * Observation hooks for external runtime monitors.
+ *
+ * Everything in this header is compiled only when ORATIO_VERIF is defined; without it
+ * the VERIF_HOOK macro expands to nothing and no symbol is emitted.
+ * The hooks never change control flow, data or locking of the library: they only hand
+ * values that are about to be used (or have just been computed) to a listener installed
+ * by a test driver.
+ */
+#ifdef ORATIO_VERIF
+#include "smt_export.h"
+#include "lit.h"
+#include "lin.h"
+#include "inf_rational.h"
+#include <vector>
+
+namespace smt
+{
+  class theory;
+
+  namespace verif
+  {
+    class listener
+    {
+    public:
+      virtual ~listener() = default;
+
+      virtual void new_clause(const std::vector<lit> &) {}                             // a clause is being added through sat_core::new_clause..
+      virtual void learnt(const std::vector<lit> &) {}                                 // a clause is being recorded (learnt no-good, theory lemma, next() no-good)..
+      virtual void theory_conflict(const theory &, const std::vector<lit> &) {}        // a theory reported this conflict clause..
+      virtual void lra_slack(const var &, const lin &) {}                              // slack variable 'x' has been defined as the given linear expression..
+      virtual void lra_assertion(const var &, int, const var &, const inf_rational &) {} // control variable 'b' stands for 'x <op> v' (op: 0 leq, 1 geq)..
+      virtual void dl_distance(int, const var &, const var &, const var &, const inf_rational &) {} // (kind: 0 idl, 1 rdl) control variable 'b' stands for 'to - from <= d'..
+      virtual void pivot_task(int) {}                                                   // a row-update task of a parallel pivot reached the given phase..
+    };
+
+    SMT_EXPORT listener *&current() noexcept; // the currently installed listener (nullptr if none)..
+  } // namespace verif
+} // namespace smt
+
+#define VERIF_HOOK(call)                       \
+  do                                           \
+  {                                            \
+    if (auto *vl_ = ::smt::verif::current())   \
+      vl_->call;                               \
+  } while (false)
+#else
+#define VERIF_HOOK(call)
+#endif
